@@ -85,3 +85,30 @@ pub fn run(id: &str, v: &serde_json::Value) -> i32 {
         1
     }
 }
+
+/// native witness for the `tags` unit: the tag each kind of AvailableValue gets in a JSON dump
+pub fn tags_search() -> i32 {
+    use riscv_analysis::analysis::AvailableValue;
+    use riscv_analysis::parser::{LabelString, Register, Token, With};
+    let l = || LabelString::new("L");
+    let vals = vec![
+        ("Constant", AvailableValue::Constant(1)), ("Address", AvailableValue::Address(With::new(l(), Token::default()))),
+        ("Memory", AvailableValue::Memory(l(), 1)), ("RegisterWithScalar", AvailableValue::RegisterWithScalar(Register::X5, 1)),
+        ("OriginalRegisterWithScalar", AvailableValue::OriginalRegisterWithScalar(Register::X5, 1)),
+        ("MemoryAtRegister", AvailableValue::MemoryAtRegister(Register::X5, 1)),
+        ("MemoryAtOriginalRegister", AvailableValue::MemoryAtOriginalRegister(Register::X5, 1)),
+        ("ValueInCsr", AvailableValue::ValueInCsr(CsrImm::new(1))), ("MemoryAtCsr", AvailableValue::MemoryAtCsr(CsrImm::new(1), 1)),
+    ];
+    let tags: Vec<(String, String)> = vals.iter().map(|(n, v)| {
+        let j = serde_json::to_value(v).expect("serializable");
+        (n.to_string(), j.as_object().and_then(|o| o.keys().next().cloned()).unwrap_or_else(|| j.to_string()))
+    }).collect();
+    for i in 0..tags.len() { for j in i + 1..tags.len() {
+        if tags[i].1 == tags[j].1 {
+            println!("witness: AvailableValue::{} and AvailableValue::{} are both dumped with the tag {:?}", tags[i].0, tags[j].0, tags[i].1);
+            return 1;
+        }
+    } }
+    println!("the nine kinds of AvailableValue have nine different tags");
+    0
+}
